@@ -175,10 +175,11 @@ def repo_build(variant="hook"):
     try:
         stamp = os.path.join(path, ".verif-ok")
         if not os.path.exists(stamp):
-            # prune older builds of this variant
-            for d in os.listdir(BUILD):
-                if d.startswith("repo-%s-" % variant):
-                    shutil.rmtree(os.path.join(BUILD, d), ignore_errors=True)
+            # prune: keep the 5 most recently used builds of this variant (disk is limited)
+            olds = [os.path.join(BUILD, d) for d in os.listdir(BUILD) if d.startswith("repo-%s-" % variant)]
+            olds.sort(key=lambda x: os.path.getmtime(x), reverse=True)
+            for d in olds[5:]:
+                shutil.rmtree(d, ignore_errors=True)
             btype, cflags, cc = VARIANTS[variant]
             t0 = time.time()
             run(["cmake", "-G", "Ninja", "-S", REPO, "-B", path,
@@ -191,6 +192,8 @@ def repo_build(variant="hook"):
                 raise RuntimeError("build of /repo working tree failed (variant %s):\n%s\n%s" % (variant, out[-3000:], err[-3000:]))
             open(stamp, "w").write("ok\n")
             log("[build] %s built in %.1fs" % (name, time.time() - t0))
+        else:
+            os.utime(path, None)
     finally:
         fcntl.flock(lock, fcntl.LOCK_UN)
         lock.close()
